@@ -231,6 +231,7 @@ class SourceScope(Scope):
         self._imports = []
         self._star_imports = []
         self.star_modules = []  # type: list[t.Any]
+        self.star_missing = []  # type: list[str]
         self._attr_assigns = []
         self._global_names = {}
         self._pending_memos = []  # type: list[list[tuple[t.Any, str]]]
@@ -325,6 +326,8 @@ class SourceScope(Scope):
             try:
                 module = project.get_nmodule(mname, self.filename)
             except ImportError:
+                # nothing to copy - until the module comes into existence
+                self.star_missing.append(mname)
                 continue
 
             # the names copied below are those the module had now
